@@ -13,11 +13,13 @@ the shared `solutions` list), F-C10c (a proven candidate *commits* its undo fram
 returning), F-C10b (one undo frame around the whole breadth-first search) and F-C10a (commit
 merges, see `RreModel/C10/Model.lean`, whose store `St` is reused here).
 
-What is a parameter, not computed here: the candidate lists.  The top-level list comes out of a
+What is a parameter of the search model: the candidate lists.  The top-level list comes out of a
 `HashSet` (`ConclusionIndex::find_candidates`), the sub-goal lists from the substring heuristic
 `rule_could_prove_pattern` over `kb.get_rules()`; the search model takes `topCands : List Nat` and
 `subCands : Atom → List Nat` (rule indices) as inputs, and the soundness / restoration theorems
-hold for EVERY choice of them.  The driver computes them the way the code does.
+hold for EVERY choice of them.  `Candidates.lean` computes them the way the code does
+(`topCandidates`, `subCandidates`; the driver runs those), and the completeness theorems are
+instantiated with them (`dfs_complete_code`).
 
 Faithful quirks: a missing field makes only `!=` true; `Integer` and `Number` literals are never
 `==`; a condition that is turned into a sub-goal goes through a string (`condition_to_goal_pattern`
